@@ -108,7 +108,7 @@ Lemma full_sync_range_ok : full_sync_range =
 Proof. reflexivity. Qed.
 
 Lemma skel_StartSyncWithLeader_ok : skel_StartSyncWithLeader =
-  [RLock "v0.mu"; Assign "v2" ":= v0.mu.closed"; RUnlock "v0.mu"; GoE [Call "LoadRegionsOnce"; Assign "v3" ":= v0.server.GetStorage().LoadRegionsOnce(v0.server.GetBasicCluster().CheckAndPutRegion)"; ForE [SwitchE [[Ret]; []]; Assign "v4" "= v0.establish(v1)"; Assign "v3" "= v0.establish(v1)"]; ForE [SwitchE [[Ret]; []]; Assign "v5" ":= v0.syncRegion(v4)"; Assign "v6" ":= v0.syncRegion(v4)"; IfE "v6 != nil" [Assign "v7" ":= status.FromError(v6)"; Assign "v8" ":= status.FromError(v6)"; IfE "v8" [IfE "v7.Code() == codes.Canceled" [Ret] []] []] []; ForE [Call "Recv"; Assign "v9" ":= v5.Recv()"; Assign "v10" ":= v5.Recv()"; IfE "v10 != nil" [Assign "v10" "= v5.CloseSend()"] []; Call "GetNextIndex"; Call "GetStartIndex"; IfE "v0.history.GetNextIndex() != v9.GetStartIndex()" [Call "GetStartIndex"; Call "ResetWithIndex"] []; Call "GetRegionStats"; Assign "v11" ":= v9.GetRegionStats()"; Call "GetRegions"; Assign "v12" ":= v9.GetRegions()"; Call "GetRegionLeaders"; Assign "v13" ":= v9.GetRegionLeaders()"; Assign "v14" ":= len(v11) == len(v12)"; ForE [IfE "len(v13) > v15 && v13[v15].Id != 0" [Assign "v18" "= v13[v15]"] []; IfE "v14" [Call "NewRegionInfo"; Assign "v17" "= core.NewRegionInfo(v16, v18, core.SetWrittenBytes(v11[v15].BytesWritten), core.SetWrittenKeys(v11[v15].KeysWritten), core.SetReadBytes(v11[v15].BytesRead), core.SetReadKeys(v11[v15].KeysRead), )"] [Call "NewRegionInfo"; Assign "v17" "= core.NewRegionInfo(v16, v18)"]; Call "CheckAndPutRegion"; Call "SaveRegion"; Assign "v10" "= v0.server.GetStorage().SaveRegion(v16)"; IfE "v10 == nil" [Call "Record"] []]]]]].
+  [RLock "v0.mu"; Assign "v2" ":= v0.mu.closed"; RUnlock "v0.mu"; GoE [DeferE [Ret]; Call "LoadRegionsOnce"; Assign "v3" ":= v0.server.GetStorage().LoadRegionsOnce(func(v4 *core.RegionInfo) []*core.RegionInfo { return v0.server.GetBasicCluster().CheckAndPutLoadedRegion(v4, v0.server.GetStorage().SaveRegion) })"; ForE [SwitchE [[Ret]; []]; Assign "v5" "= v0.establish(v1)"; Assign "v3" "= v0.establish(v1)"]; ForE [SwitchE [[Ret]; []]; Assign "v6" ":= v0.syncRegion(v5)"; Assign "v7" ":= v0.syncRegion(v5)"; IfE "v7 != nil" [Assign "v8" ":= status.FromError(v7)"; Assign "v9" ":= status.FromError(v7)"; IfE "v9" [IfE "v8.Code() == codes.Canceled" [Ret] []] []] []; ForE [Call "Recv"; Assign "v10" ":= v6.Recv()"; Assign "v11" ":= v6.Recv()"; IfE "v11 != nil" [Assign "v11" "= v6.CloseSend()"] []; Call "GetNextIndex"; Call "GetStartIndex"; IfE "v0.history.GetNextIndex() != v10.GetStartIndex()" [Call "GetStartIndex"; Call "ResetWithIndex"] []; Call "GetRegionStats"; Assign "v12" ":= v10.GetRegionStats()"; Call "GetRegions"; Assign "v13" ":= v10.GetRegions()"; Call "GetRegionLeaders"; Assign "v14" ":= v10.GetRegionLeaders()"; Assign "v15" ":= len(v12) == len(v13)"; ForE [IfE "len(v14) > v16 && v14[v16].Id != 0" [Assign "v19" "= v14[v16]"] []; IfE "v15" [Call "NewRegionInfo"; Assign "v18" "= core.NewRegionInfo(v17, v19, core.SetWrittenBytes(v12[v16].BytesWritten), core.SetWrittenKeys(v12[v16].KeysWritten), core.SetReadBytes(v12[v16].BytesRead), core.SetReadKeys(v12[v16].KeysRead), )"] [Call "NewRegionInfo"; Assign "v18" "= core.NewRegionInfo(v17, v19)"]; Call "CheckAndPutRegion"; Call "SaveRegion"; Assign "v11" "= v0.server.GetStorage().SaveRegion(v17)"; IfE "v11 == nil" [Call "Record"] []]]]]].
 Proof. reflexivity. Qed.
 
 
